@@ -143,8 +143,11 @@ def decode_chunk_into(chunk, buf, block_size):
         if offset + 8 * gx * gy * gz > len(buf):
             raise InvalidFormatError("compressed_segmentation channel offset "
                                      "is too large (truncated file?)")
+        # Offsets inside a channel are relative to its start and the format
+        # does not require channels to be stored in order, so a channel
+        # extends to the end of the file rather than to the next offset.
         _decode_channel_into(
-            chunk, channel, buf[offset:next_offset], block_size
+            chunk, channel, buf[offset:], block_size
         )
 
     return chunk
